@@ -2,6 +2,7 @@ package datamodeldiagram
 
 import (
 	"fmt"
+	"github.com/anz-bank/sysl/pkg/utils"
 	"regexp"
 	"strings"
 
@@ -30,7 +31,9 @@ func GenerateDataModelsWithProjectMannerModule(datagenParams *cmdutils.CmdContex
 	}
 
 	// Iterate over each endpoint within the selected project
-	for epname, endpt := range app.GetEndpoints() {
+	// in name order: endpoints that expand to one output name overwrite each other
+	for _, epname := range utils.OrderedKeys(app.GetEndpoints()) {
+		endpt := app.GetEndpoints()[epname]
 		outputDir := datagenParams.Output
 		if strings.Contains(outputDir, "%(epname)") {
 			of := cmdutils.MakeFormatParser(datagenParams.Output)
@@ -66,7 +69,8 @@ func GenerateDataModelsWithPureModule(datagenParams *cmdutils.CmdContextParamDat
 	spclass := sequencediagram.ConstructFormatParser("", datagenParams.ClassFormat)
 
 	apps := model.GetApps()
-	for appName := range apps {
+	// in name order: applications that expand to one output name overwrite each other
+	for _, appName := range utils.OrderedKeys(apps) {
 		app := apps[appName]
 		outputDir := datagenParams.Output
 		if strings.Contains(outputDir, "%(epname)") {
